@@ -547,6 +547,100 @@ func dialCfg(repo string) (recheck, exclusive bool) {
 	return
 }
 
+// ---- hub: Shutdown against establishments under way
+func shutCfg(repo string) (recheck, exclusive, guardAtStart bool) {
+	cf := parse(repo, "hub/hub_connections.go")
+	hf := parse(repo, "hub/hub.go")
+	isMux := func(st ast.Stmt, method string) bool {
+		es, ok := st.(*ast.ExprStmt)
+		if !ok {
+			return false
+		}
+		c, ok := es.X.(*ast.CallExpr)
+		if !ok {
+			return false
+		}
+		se, ok := c.Fun.(*ast.SelectorExpr)
+		return ok && se.Sel.Name == method && sel(se.X) == "muxConnect"
+	}
+	checks := func(name string) bool {
+		fd := funcDecl(cf, name)
+		if fd == nil {
+			return false
+		}
+		locked := false
+		for _, st := range fd.Body.List {
+			if isMux(st, "Lock") {
+				locked = true
+				continue
+			}
+			if containsCall(st, "keepThisConnection") || containsCall(st, "registerConnection") {
+				return false
+			}
+			if ifs, ok := st.(*ast.IfStmt); ok && locked && containsCall(ifs.Cond, "checkHasShutdown") {
+				for _, b := range ifs.Body.List {
+					if _, ok := b.(*ast.ReturnStmt); ok {
+						return true
+					}
+				}
+			}
+		}
+		return false
+	}
+	recheck = checks("connectFoundService") && checks("ServeHTTP")
+	// connectFoundService begins with an if that looks at the flag and returns; the second attempt (without the path) too
+	if fd := funcDecl(cf, "connectFoundService"); fd != nil && len(fd.Body.List) > 0 {
+		first := false
+		if ifs, ok := fd.Body.List[0].(*ast.IfStmt); ok && containsCall(ifs.Cond, "checkHasShutdown") {
+			for _, b := range ifs.Body.List {
+				if _, ok := b.(*ast.ReturnStmt); ok {
+					first = true
+				}
+			}
+		}
+		// every Dial after the first one is preceded, in its block, by such a look
+		second := true
+		dials := 0
+		ast.Inspect(fd.Body, func(x ast.Node) bool {
+			blk, ok := x.(*ast.BlockStmt)
+			if !ok {
+				return true
+			}
+			looked := false
+			for _, st := range blk.List {
+				if ifs, ok := st.(*ast.IfStmt); ok && containsCall(ifs.Cond, "checkHasShutdown") {
+					looked = true
+				}
+				if as, ok := st.(*ast.AssignStmt); ok && containsCall(as, "Dial") {
+					dials++
+					if dials > 1 && !looked {
+						second = false
+					}
+				}
+			}
+			return true
+		})
+		guardAtStart = first && second
+	}
+	if fd := funcDecl(hf, "Shutdown"); fd != nil {
+		locked := false
+		for _, st := range fd.Body.List {
+			if isMux(st, "Lock") {
+				locked = true
+				continue
+			}
+			if isMux(st, "Unlock") {
+				locked = false
+				continue
+			}
+			if as, ok := st.(*ast.AssignStmt); ok && locked && len(as.Lhs) == 1 && sel(as.Lhs[0]) == "hasShutdown" {
+				exclusive = true
+			}
+		}
+	}
+	return
+}
+
 // every call of `name` inside fd is a plain call: at least one exists and none sits under a go statement, a defer or a
 // function literal
 func plainCalls(fd *ast.FuncDecl, name string) bool {
@@ -1083,6 +1177,10 @@ func main() {
 	{
 		a, b := dialCfg(*repo)
 		files["DialFacts.lean"] = fmt.Sprintf("/- GENERATED by /verif/extract from /repo — do not edit. -/\nimport ShipVerif.Model.Dial\nnamespace ShipVerif.Generated\n\n/-- hub/hub_connections.go connectFoundService, hub/hub_pairing.go UnregisterRemoteSKI / CancelPairingWithSKI: design facts -/\ndef dialCfg : ShipVerif.Dial.Cfg := { recheck := %v, exclusive := %v }\n\nend ShipVerif.Generated\n", a, b)
+	}
+	{
+		a, b, g := shutCfg(*repo)
+		files["ShutFacts.lean"] = fmt.Sprintf("/- GENERATED by /verif/extract from /repo — do not edit. -/\nimport ShipVerif.Model.Shut\nnamespace ShipVerif.Generated\n\n/-- hub/hub.go Shutdown, hub/hub_connections.go connectFoundService / ServeHTTP: design facts -/\ndef shutCfg : ShipVerif.Shut.Cfg := { recheck := %v, exclusive := %v, guardAtStart := %v }\n\nend ShipVerif.Generated\n", a, b, g)
 	}
 	files["RegFacts.lean"] = fmt.Sprintf("/- GENERATED by /verif/extract from /repo — do not edit. -/\nimport ShipVerif.Model.Reg\nnamespace ShipVerif.Generated\n\n/-- hub/hub_shipconnection.go HandleConnectionClosed: design facts -/\ndef regCfg : ShipVerif.Reg.Cfg := { closeAtomic := %v }\n\nend ShipVerif.Generated\n", regCfg(*repo))
 	files["AsyncFacts.lean"] = fmt.Sprintf("/- GENERATED by /verif/extract from /repo — do not edit. -/\nimport ShipVerif.Model.View\nnamespace ShipVerif.Generated\n\n/-- mdns/mdns.go: reports are delivered under a mutex and dropped when a newer snapshot was delivered -/\ndef mdnsReportCfg : ShipVerif.Async.Cfg := { guarded := %v }\n\nend ShipVerif.Generated\n", mdnsReportGuarded(*repo))
